@@ -474,6 +474,7 @@ class Interp:
         self.memo = {}
         self.trace = bool(os.environ.get("MIRSYM_TRACE"))
         self.assumptions = []          # global facts about the symbolic inputs (z3 Bools)
+        self.no_merge = False          # pure path forking (used where merged states would need unions of maps)
         self.clock_reads = []          # symbolic instants returned by SystemTime::now(), in call order
         self.fn_hooks = {}             # crate fn name -> hook(I, args, st) -> value | None (inductive hypotheses)
         from . import stdmodel, winnow
@@ -527,8 +528,8 @@ class Interp:
         normal = [(s, v) for s, v in paths if not isinstance(v, Panic)]
         panics = [(s, v) for s, v in paths if isinstance(v, Panic)]
         out = []
-        if len(normal) == 1:
-            out.append(normal[0])
+        if len(normal) == 1 or self.no_merge:
+            out.extend(normal)
         elif normal:
             out.append(self.merge_paths(st, normal))
         out.extend(panics)
@@ -1170,8 +1171,28 @@ class Interp:
             return v
         raise Unsupported("cast kind " + ck)
 
+    def scalarize(self, v, width):
+        """a guarded union of integers (merged before their width was known) -> one ite term"""
+        if not isinstance(v, Union):
+            return v
+        alts = []
+        for g, x in v.alts:
+            if isinstance(x, bool):
+                x = int(x)
+            if isinstance(x, int):
+                x = z3.BitVecVal(x, width)
+            elif not (is_sym(x) and z3.is_bv(x) and x.size() == width):
+                raise Unsupported("cannot scalarize %r to %d bits" % (x, width))
+            alts.append((g, x))
+        acc = alts[-1][1]
+        for g, x in reversed(alts[:-1]):
+            acc = z3.If(g, x, acc)
+        return acc
+
     def binop(self, name, x, y, ty):
         bits = self.int_bits(ty)
+        if bits is not None and (isinstance(x, Union) or isinstance(y, Union)):
+            x, y = self.scalarize(x, bits[0]), self.scalarize(y, bits[0])
         cx, cy = not is_sym(x), not is_sym(y)
         if isinstance(x, (Adt, Union)) or isinstance(y, (Adt, Union)):
             # comparison of C-like enums through their discriminants is printed on the discriminant
